@@ -120,6 +120,7 @@ func (s *PSched) Run(choose func(step int, pend []*POp) int) (hang bool) {
 		s.Stuck = 5 * time.Second
 	}
 	var idle time.Time
+	waits := 0
 	for step := 0; ; {
 		s.settle()
 		s.mu.Lock()
@@ -147,6 +148,13 @@ func (s *PSched) Run(choose func(step int, pend []*POp) int) (hang bool) {
 			return pend[i].Name < pend[j].Name
 		})
 		c := choose(step, pend)
+		if c == -1 && waits < 400 {
+			// "not yet": the policy waits for a running operation to reach its next point (bounded: 400 x 250us)
+			waits++
+			time.Sleep(250 * time.Microsecond)
+			continue
+		}
+		waits = 0
 		if c < 0 || c >= len(pend) {
 			c = 0
 		}
@@ -165,6 +173,14 @@ func (s *PSched) Run(choose func(step int, pend []*POp) int) (hang bool) {
 		s.mu.Unlock()
 		close(o.ch)
 	}
+}
+
+// Running is the number of registered goroutines that are neither parked nor finished (running, or blocked on
+// something the scheduler does not see).
+func (s *PSched) Running() int {
+	s.mu.Lock()
+	defer s.mu.Unlock()
+	return s.active
 }
 
 // ReleaseAll lets everything run freely from now on.
